@@ -121,7 +121,7 @@ func initModels() {
 	bm := []string{bigMem}
 	reg(B+"Add", bm, bigBin(func(c *Ctx, x, y string) string { return add(x, y) }, false))
 	reg(B+"Sub", bm, bigBin(func(c *Ctx, x, y string) string { return sub(x, y) }, false))
-	reg(B+"Mul", bm, bigBin(func(c *Ctx, x, y string) string { return mul(x, y) }, false))
+	reg(B+"Mul", bm, bigBin(func(c *Ctx, x, y string) string { return c.mulTerm(x, y) }, false))
 	reg(B+"Div", bm, bigBin(func(c *Ctx, x, y string) string { return app("div", x, y) }, true))
 	reg(B+"Mod", bm, bigBin(func(c *Ctx, x, y string) string { return app("mod", x, y) }, true))
 	reg(B+"Quo", bm, bigBin(func(c *Ctx, x, y string) string { return goQuo(x, y, false) }, true))
@@ -286,7 +286,7 @@ func initModels() {
 	}
 	reg(U+"Add", um, ubin(func(c *Ctx, x, y string) string { return mod256(c, add(x, y)) }))
 	reg(U+"Sub", um, ubin(func(c *Ctx, x, y string) string { return mod256(c, sub(x, y)) }))
-	reg(U+"Mul", um, ubin(func(c *Ctx, x, y string) string { return mod256(c, mul(x, y)) }))
+	reg(U+"Mul", um, ubin(func(c *Ctx, x, y string) string { return mod256(c, c.mulTerm(x, y)) }))
 	reg(U+"Div", um, ubin(func(c *Ctx, x, y string) string { return ite(eq(y, "0"), "0", app("div", x, y)) }))
 	reg(U+"Mod", um, ubin(func(c *Ctx, x, y string) string { return ite(eq(y, "0"), "0", app("mod", x, y)) }))
 	uovf := func(op func(x, y string) string, ovf func(r string) string) applyFn {
@@ -295,14 +295,19 @@ func initModels() {
 			z, x, y := args[0][0], args[1][0], args[2][0]
 			nilGuard(f, reach, site, z, x, y)
 			xv, yv := u256Get(c, st, x), u256Get(c, st, y)
-			r := c.bind("ov", "Int", op(xv, yv))
+			var r string
+			if op == nil {
+				r = c.bind("ov", "Int", c.mulTerm(xv, yv))
+			} else {
+				r = c.bind("ov", "Int", op(xv, yv))
+			}
 			st = u256Set(c, st, z, mod256(c, r))
 			return Val{z, ovf(r)}, st, true
 		}
 	}
 	reg(U+"AddOverflow", um, uovf(add, func(r string) string { return ge(r, two256) }))
 	reg(U+"SubOverflow", um, uovf(sub, func(r string) string { return lt(r, "0") }))
-	reg(U+"MulOverflow", um, uovf(mul, func(r string) string { return ge(r, two256) }))
+	reg(U+"MulOverflow", um, uovf(nil, func(r string) string { return ge(r, two256) }))
 	ucmp := func(op func(a, b string) string) applyFn {
 		return func(f *frame, callee *ssa.Function, args []Val, st State, reach string, site ssa.CallInstruction) (Val, State, bool) {
 			nilGuard(f, reach, site, args[0][0], args[1][0])
